@@ -26,7 +26,7 @@ RULE = ("scenario = (repository kind, operation kind, hand-written packages befo
         "must equal the observation before the operation (old) or after the uninjected operation (new). One evaluation = one "
         "fault point judged. A case is NON-TRIVIAL when the tree at judgement time equals neither the pre-operation tree nor "
         "the completed tree (a genuinely intermediate state); distinct = (scenario, kind, k). Quick: 6 fixed vdb scenarios "
-        "(2 install, 2 replace, 2 uninstall) + 6 binpkg-repository scenarios (install, replace same version / new version / new revision, 2 uninstall; "
+        "(2 install, 2 replace, 2 uninstall) + 7 binpkg-repository scenarios (install, replace same version [also with the new .tbz2 in the same mtime second as the old one] / new version / new revision, 2 uninstall; binpkg observation also reads the xpak of the file directly; "
         "tarball + xpak + Packages cache written by the real code); thorough: + 36 generated vdb scenarios (EAPI 5-8, slots, "
         "CONTENTS sizes, NEEDED files, missing optional metadata, siblings).")
 ASSUMPTIONS = [
@@ -39,8 +39,9 @@ ASSUMPTIONS = [
     "COUNTER (wall clock) is compared by shape only; mtimes are not part of the observation",
     "package phases (pkg_*), livefs merging and the ebuild daemon are not part of the repository operation and are not run",
     "binpkg: the package handed to install/replace is the source package with contents = livefs scan of a build image (what "
-    "pkgcore packs binpkgs from); old binpkgs carry an old mtime (a same-second rebuild, where the Packages cache cannot "
-    "tell old from new by int(mtime), is not exercised); bz2.BZ2File's file is made visible to vt.fault by re-binding "
+    "pkgcore packs binpkgs from); old binpkgs carry an old mtime; the same-second rebuild (Packages cache cannot tell old from new by "
+    "int(mtime)) is exercised by one scenario that puts the subject .tbz2 of every post-fault state into the old file's "
+    "second with os.utime before the fresh view is built; bz2.BZ2File's file is made visible to vt.fault by re-binding "
     "bz2._builtin_open in the child",
 ]
 SHARDS = {"quick": 4, "thorough": 16}
@@ -86,7 +87,18 @@ class Scenario:
         gen.build_template(self.template, scen)
         if self.kind == "binpkg":
             _pack_binpkg_template(self)
-        self.observe = ref.observe_vdb if self.kind == "vdb" else ref.observe_binpkg
+        self._observe = ref.observe_vdb if self.kind == "vdb" else ref.observe_binpkg
+
+    def observe(self, repo):
+        """Fresh view of `repo`.  For a same_second scenario the subject .tbz2 found there (old or new build) first
+        gets an mtime inside the second of the replaced file (os.utime): the case of an immediate rebuild, made
+        deterministic instead of depending on how fast the harness ran."""
+        if self.kind == "binpkg" and self.scen.get("same_second"):
+            for c in {self.old_cpv, self.new_cpv} - {None}:
+                path = pjoin(repo, c + ".tbz2")
+                if os.path.isfile(path):
+                    os.utime(path, (gen.OLD_MTIME + 0.25, gen.OLD_MTIME + 0.25))
+        return self._observe(repo)
 
     def restore(self):
         if os.path.exists(self.work):
@@ -271,6 +283,15 @@ def judge_state(ctx, sc, repo, mode, k, done, res=None, real=False):
     if mode == "eio" and res:
         ctx.count("eio_outcome:" + res.get("status", "?"))
     for rule, detail in fails:
+        if rule == "partial-package" and sc.kind == "binpkg":
+            # sub-mechanism for the report: the listed package's metadata is not what its own file says
+            # (e.g. served from a stale Packages cache entry) -> a package mixed from two builds
+            ent = obs["pkgs"].get(detail) or {}
+            m, x = ent.get("meta", {}), ent.get("files", {})
+            if x.get("xpak:DESCRIPTION") is not None and (
+                    m.get("description") != x.get("xpak:DESCRIPTION")
+                    or m.get("use") != sorted((x.get("xpak:USE") or "").split())):
+                rule = "partial-package-metadata-not-from-its-file"
         w = {
             "rule": rule, "detail": detail, "scenario": sc.scen, "repo": sc.kind, "op": sc.scen["op"],
             "mode": mode, "k": k, "done": done, "nops": len(sc.ops),
